@@ -2,6 +2,7 @@
 import collections
 from .. import cases as K
 from ..layer_a import Engine, proj_kinds
+from ..deleg_part import DelegPart
 from ..runner import run_coexec, replay_coexec
 
 MODULE = "Props.C08"
@@ -169,13 +170,52 @@ class ConcurrentErrors:
         return len(ccases), payload, cov
 
 
+def receiver_error_case(rng):
+    """the errors that the GENERATED method bodies raise (no real function / no default body to run: CannotUnmock, NoDefaultImpl) for
+    every receiver kind of the delegation inventory - in particular the `&mut self` / Pin receivers, whose bodies are built from another
+    template: a call that resolves to Unmock or to the default implementation where there is none, swallowed (on the original or a clone),
+    then the verdict of the original"""
+    tag = [0]
+    def fresh():
+        tag[0] += 1
+        return tag[0]
+    # required methods WITHOUT a registered function: 11 (&self), 23 (Rc), 29 (Arc), 33 (by value); with an entry but no arm: 20 (&mut self);
+    # provided methods without a function: 14 (&self), 15 (&mut self), 19 (Pin)
+    probes = [(11, "unm"), (20, "unm"), (15, "unm"), (19, "unm"), (14, "unm"), (11, "dfl"), (20, "dfl"), (10, "dfl"), (20, None), (11, None)]
+    terms, evs = [], []
+    chosen = rng.sample(probes, rng.randint(1, 3))
+    seen = set()
+    for (m, how) in chosen:
+        if how is not None and m not in seen:
+            seen.add(m)
+            terms.append({"kind": "call", "mid": m, "opener": "each", "pat": {"matcher": 255, "dbg": fresh(), "ops": [(how,)]}})
+    terms.append({"kind": "call", "mid": 10, "opener": "each", "pat": {"matcher": 255, "dbg": fresh(), "ops": [("ret", fresh())]}}) if 10 not in seen else None
+    clone = rng.random() < 0.4
+    if clone:
+        evs.append({"base": ("clone", 0)})
+    for (m, how) in chosen:
+        e = {"base": ("call", 1 if clone and rng.random() < 0.6 else 0, m, rng.randrange(8))}
+        if rng.random() < 0.3:
+            e["other"] = True
+        evs.append(e)
+        if rng.random() < 0.4:
+            evs.append({"base": ("call", 0, 10, rng.randrange(8))})
+    if clone:
+        evs.append({"base": ("drop", 1)})
+    evs.append({"base": (rng.choice(["drop", "verify", "report"]), 0)})
+    return {"partial": rng.random() < 0.6, "terms": terms, "events": evs}
+
+
 def engines(tier):
     return [Engine("C08", project=proj_kinds)]
 
 
 def run(tier, seed):
     return run_coexec("C08", tier, seed, module=MODULE, theorems=THEOREMS, gen_cases=gen_cases,
-                      nontrivial=nontrivial, rule=RULE, engines=engines(tier), stats=stats, parts=[ConcurrentErrors()])
+                      nontrivial=nontrivial, rule=RULE, engines=engines(tier), stats=stats, parts=[ConcurrentErrors(),
+                             DelegPart("C08", receiver_error_case, "correspondence C08 (receiver part): errors raised by the generated method bodies "
+                                       "(CannotUnmock, NoDefaultImpl) for every receiver kind are recorded like the runtime's own",
+                                       rule=receiver_error_case.__doc__, n_quick=80, n_thorough=600)])
 
 
 def replay(path):
